@@ -18,7 +18,10 @@ reference leaves the real domain (acos/asin of |x| > 1, log/sqrt of negatives, f
 its edge are skipped.  General models never have `pi` inside the argument of sin/cos/tan: the known sympy problem "an evaluating
 trigonometric function applied to an unevaluated sum containing pi drops terms" is exercised only by the dedicated probe list PI_TRIG_PROBES
 and every mismatch of a model with pi inside a trigonometric argument is reported as C01:rhs-mismatch:trig-of-unevaluated-sum-with-pi.  A
-fraction of the models has intermediates that mention a d<state>_dt name.  A case is non-trivial when the model has an
+fraction of the models has intermediates that mention a d<state>_dt name.  Exception signatures are classified from the model text:
+codegen-raises:AttributeError@<site> gets :boolean-used-arithmetically when the message names a sympy Boolean and the text uses a relational /
+logical value as a number (`2 + Eq(2, 1e-1)`; modelgen.boolean_in_arithmetic), rhs-raises:<Exc> of such a text gets
+:boolean-used-arithmetically:<message key> (`2**-aux**2` with an integer-typed aux: integers-to-negative-integer-powers-are); others stay bare.  A case is non-trivial when the model has an
 intermediate or an expression of nesting depth >= 2 and the reference rhs is not identically zero; cases are
 distinct by sha1(model text, point)."""
 
